@@ -306,8 +306,12 @@ def gen_gwrite_directed(seed, rng):
     if not writers:
         return None
     a = rng.choice(writers)
-    hot = sorted(core.Z.cov_gwrites[a])
+    hot = sorted(loc for loc in core.Z.cov_gwrites[a] if not loc.startswith("<"))  # not the generated __init__ bodies
     sharing = sorted({n for loc in hot for n in users.get(loc, ()) if _subject(n) != _subject(a)})
+    # calls that replace the very same slot with (probably) another value are the natural opponents
+    rivals = [w for w in writers if w != a and _subject(w) != _subject(a) and core.Z.cov_gslots.get(w, frozenset()) & core.Z.cov_gslots.get(a, frozenset())]
+    if rivals and rng.random() < 0.7:
+        sharing = rivals
     if not sharing:
         sharing = [o.name for o in core.Z.ops if not o.needs]
     n = rng.choice([2, 2, 3])
